@@ -12,3 +12,16 @@ func (o *RuntimeError) VerifAddTrace(pos parser.Pos) { o.addTrace(pos) }
 
 // VerifSetFileSet sets the unexported fileSet used by StackTrace.
 func (o *RuntimeError) VerifSetFileSet(fs *parser.SourceFileSet) { o.fileSet = fs }
+
+// VerifFrameSourcePos is getFrameSourcePos for a frame of a function with the
+// given source map and saved ip; VerifCurSourcePos is vm.getSourcePos for a VM
+// whose current frame runs that function at ip.
+func VerifFrameSourcePos(sm map[int]int, ip int) parser.Pos {
+	return getFrameSourcePos(&frame{fn: &CompiledFunction{SourceMap: sm}, ip: ip})
+}
+
+// VerifCurSourcePos see VerifFrameSourcePos.
+func VerifCurSourcePos(sm map[int]int, ip int) parser.Pos {
+	vm := &VM{ip: ip, curFrame: &frame{fn: &CompiledFunction{SourceMap: sm}}}
+	return vm.getSourcePos()
+}
